@@ -113,6 +113,16 @@ def _cases_first_call(tier):
     for scale in (2.0 ** -17, 2.0 ** 12):
         for start in range(0, len(polys), PACK * step):
             out.append({'part': 'lattice', 'scale': scale, 'polygons': [[list(v) for v in p] for p in polys[start:start + PACK]]})
+    # a vertex listed twice in a row (a triangle stored in a four-column table as a b c c; a cell edge collapsed to a
+    # point at a pole): every position of the repeat, in every polygon with up to five vertices
+    repeated = []
+    for p in polys:
+        if len(p) <= 5:
+            for k in range(len(p)):
+                repeated.append(p[:k + 1] + [p[k]] + p[k + 1:])
+            repeated.append(p + [p[0]])
+    for start in range(0, len(repeated), PACK * (1 if tier == 'thorough' else 4)):
+        out.append({'part': 'lattice', 'repeated': True, 'polygons': [[list(v) for v in p] for p in repeated[start:start + PACK]]})
     for spec in builders.family_specs(tier):
         if spec['family'] == 'cf2d' and spec.get('bounds') == 'derived':
             continue
@@ -132,11 +142,15 @@ def _cases_first_call(tier):
                                            'nt': 1, 'nk': 1}})
     if tier == 'thorough':
         out.append({'part': 'family', 'spec': {'family': 'cf2d', 'ny': 260, 'nx': 255, 'holes': 'mostlyland', 'nt': 1, 'nk': 1}})
+        # exactly 65536 cells of one size (whole chunks)
+        out.append({'part': 'family', 'spec': {'family': 'cf1d', 'ny': 256, 'nx': 256, 'bounds': 'var', 'nt': 1, 'nk': 1}})
     for corner in range(4):
         out.append({'part': 'family', 'spec': {'family': 'cf2d', 'ny': 3, 'nx': 3, 'geometry': 'skew', 'dart_corner': corner,
                                                'darts': [[0, 0], [0, 1], [0, 2], [1, 0], [1, 1], [1, 2], [2, 0], [2, 1], [2, 2]]}})
         out.append({'part': 'family', 'spec': {'family': 'shoc_simple', 'ny': 2, 'nx': 2, 'geometry': 'rect', 'dart_corner': corner,
                                                'darts': [[0, 0], [0, 1], [1, 0], [1, 1]]}})
+    out.append({'part': 'family', 'spec': {'family': 'ugrid', 'mesh': 'M13'}})
+    out.append({'part': 'family', 'spec': {'family': 'ugrid', 'mesh': 'M13', 'start_index': 1, 'fill': 'fillattr'}})
     out.append({'part': 'family', 'spec': {'family': 'ugrid', 'mesh': 'M8', 'bowtie': 1}})
     out.append({'part': 'family', 'spec': {'family': 'ugrid', 'mesh': 'M8', 'bowtie': 1, 'start_index': 1, 'fill': 'fillattr'}})
     return out
@@ -151,7 +165,7 @@ def _run_case_first_call(case):
             scale = case.get('scale', 1.0)
             faces.append(list(range(len(nodes), len(nodes) + len(poly))))
             nodes.extend((float(x + offset) * scale, float(y) * scale) for x, y in poly)
-            if has_reflex_or_collinear([tuple(v) for v in poly]):
+            if has_reflex_or_collinear([tuple(v) for v in poly]) or case.get('repeated'):
                 rec.nontrivial(k)
         spec = {'family': 'ugrid', 'mesh': 'lattice-pack', 'nodes': nodes, 'faces': faces, 'nt': 1, 'nk': 1}
         fp = "C14/lattice"
@@ -201,10 +215,12 @@ def _run_case_first_call(case):
             continue
         ring = [tuple(float(v) for v in c) for c in coords]
         tris = by_cell.get(n, [])
-        if not rec.check(len(tris) == len(ring) - 2, f"{fp}/triangle-count",
-                         f"cell {n} with {len(ring)} vertices", len(ring) - 2, len(tris)):
-            continue
         cell_poly = Polygon(ring)
+        # (a ring whose last listed vertex repeats the first is already closed: one side fewer)
+        sides = len(cell_poly.exterior.coords) - 1
+        if not rec.check(len(tris) == sides - 2, f"{fp}/triangle-count",
+                         f"cell {n} with {sides} vertices", sides - 2, len(tris)):
+            continue
         ring_set = set(ring)
         area = Fraction(0)
         good = True
